@@ -25,6 +25,7 @@ namespace aops
 namespace sim
 {
     const char* const harness_name = "any";
+    const bool caller_threads_enabled = true;
 #define X(n) #n,
     const char* const op_names[] = {ANY_OPS(X)};
 #undef X
@@ -628,7 +629,7 @@ namespace
         void run_all()
         {
             { Suspend s; check_all(); }
-            for (const Step& st : plan.steps) step(st);
+            for (const Step& st : plan.steps) as_caller(run, st, [&] { step(st); });
             Suspend s;
             tail = "teardown/-";
             teardown();
